@@ -1993,6 +1993,7 @@ func (h *handler) getPartitionLog(ctx context.Context, topic string, partition i
 
 	// Requests for other partitions proceed in parallel; only one goroutine
 	// per partition does the actual initialization.
+	ensured := false
 	for {
 		key := fmt.Sprintf("%s/%d", topic, partition)
 		result, err, _ := h.logInit.Do(key, func() (interface{}, error) {
@@ -2040,10 +2041,14 @@ func (h *handler) getPartitionLog(ctx context.Context, topic string, partition i
 			return plog, nil
 		})
 		if err != nil {
-			if errors.Is(err, metadata.ErrUnknownTopic) && h.autoCreateTopics {
+			// One auto-create attempt per call: if the topic exists but does not
+			// have this partition, creating it again changes nothing and the
+			// request must get its unknown-partition answer instead of spinning.
+			if errors.Is(err, metadata.ErrUnknownTopic) && h.autoCreateTopics && !ensured {
 				if err := h.ensureTopic(ctx, topic, partition); err != nil {
 					return nil, err
 				}
+				ensured = true
 				continue
 			}
 			return nil, err
